@@ -19,7 +19,7 @@ HasToken(lines, t) == \E x \in Tokens(lines) : EqFold(x, t)
 
 (* ---- C11: Accept ---- *)
 (* key variants: which of them are "exactly one header that decodes to 16 bytes" *)
-KeyOK(k) == k \in {"ok16", "ok16spaces"}
+KeyOK(k) == k \in {"ok16", "ok16spaces", "ok16noncanon"}    \* noncanon: non-zero padding bits, still decodes to 16 bytes
 ProtoOK(p) == p \in {"1.1", "2.0"}
 RequestValid(r) ==
   /\ r.method = "GET" /\ ProtoOK(r.proto)
@@ -54,6 +54,7 @@ AuthTokens(a) == IF a.port = "" THEN a.h ELSE a.h \o <<":", a.port>>
 (* pattern are refused or accepted at the implementation's discretion.                      *)
 AuthDecision(o, rh, pats, skip) ==
   IF skip \/ o.form = "none" THEN "accept"
+  ELSE IF o.form # "url" THEN "open"         \* schemeless / null / opaque values name no host (and may not even parse)
   ELSE LET a == Authority(o) IN
     IF a.h # <<>> /\ LowerS(a.h) = LowerS(rh.h) /\ a.port = rh.port THEN "accept"
     ELSE LET usable == {i \in 1..Len(pats) : \A j \in 1..i : ~BadPattern(pats[j])}
